@@ -162,7 +162,7 @@ def counted_while_to_for(fnode):
             BODY                           BODY
             i += c
 
-    when `i` is a plain local that is assigned immediately before the loop, incremented by a positive integer constant in
+    when `i` is a plain local that is assigned before the loop (only plain statements that do not mention it in between), incremented by a positive integer constant in
     exactly one top-level statement of the body (BODY = PRE; i += c; POST with no `continue` of this loop in PRE - it would
     skip the increment - and no use of `i` in POST), no
     name that B reads is assigned in the loop, the loop has no `else`, and `i` is not read after the loop before it is
@@ -197,10 +197,22 @@ def counted_while_to_for(fnode):
                 rewrite(h.body)
             if not (isinstance(s_, ast.While) and not s_.orelse and k > 0 and s_.body):
                 continue
-            init = stmts[k - 1]
-            if not (isinstance(init, ast.Assign) and len(init.targets) == 1 and isinstance(init.targets[0], ast.Name)):
+            # the counter of the test, and its initialisation: the nearest preceding statement that mentions it (plain
+            # statements that do not mention the counter may stand in between)
+            t0_ = s_.test.values[0] if isinstance(s_.test, ast.BoolOp) and isinstance(s_.test.op, ast.And) else s_.test
+            if not (isinstance(t0_, ast.Compare) and isinstance(t0_.left, ast.Name)):
                 continue
-            i = init.targets[0].id
+            i = t0_.left.id
+            init = None
+            for q in range(k - 1, -1, -1):
+                if any(isinstance(x, ast.Name) and x.id == i for x in ast.walk(stmts[q])):
+                    init = stmts[q]
+                    break
+                if not isinstance(stmts[q], (ast.Assign, ast.AnnAssign, ast.Expr, ast.Pass)):
+                    break
+            if not (isinstance(init, ast.Assign) and len(init.targets) == 1 and isinstance(init.targets[0], ast.Name) and init.targets[0].id == i
+                    and not any(isinstance(x, ast.Name) and x.id == i for x in ast.walk(init.value))):
+                continue
             test = s_.test
             conj = list(test.values) if isinstance(test, ast.BoolOp) and isinstance(test.op, ast.And) else [test]
             c0 = conj[0]
@@ -391,6 +403,69 @@ def flat_index_to_nested(fnode):
     return count
 
 
+# ---------------------------------------------------------------------------------------------------------------- N5
+def index_fetch_to_element_loop(fnode):
+    """N5 - *an index used only to fetch the element*.
+
+        for k in range(len(S)):        ==      for x in S:
+            x = S[k]                               BODY
+            BODY
+
+    when the bound is `len(S)` (in place, or a local assigned once from it) of a plain name S, the first statement of the
+    body fetches `S[k]` into a plain local, `k` is used nowhere else in the loop nor after it, neither S nor the local is
+    assigned in BODY, and the loop has no `else`.  Only in plain Python functions (not in jitted kernels, where index loops
+    are the idiom the kernel rules read).  Returns the number of loops rewritten."""
+    if any(isinstance(d_, (ast.Name, ast.Attribute, ast.Call)) and any(t_ in ast.dump(d_) for t_ in ("jit", "cuda")) for d_ in fnode.decorator_list):
+        return 0
+    count = 0
+    assigns = {}
+    for n_ in _own(fnode):
+        if isinstance(n_, ast.Assign) and len(n_.targets) == 1 and isinstance(n_.targets[0], ast.Name):
+            assigns.setdefault(n_.targets[0].id, []).append(n_.value)
+        elif isinstance(n_, ast.AugAssign) and isinstance(n_.target, ast.Name):
+            assigns.setdefault(n_.target.id, []).append(None)
+
+    def len_of(e):
+        if isinstance(e, ast.Name) and len(assigns.get(e.id, [])) == 1 and assigns[e.id][0] is not None:
+            e = assigns[e.id][0]
+        if isinstance(e, ast.Call) and isinstance(e.func, ast.Name) and e.func.id == 'len' and len(e.args) == 1 and isinstance(e.args[0], ast.Name):
+            return e.args[0].id
+        return None
+
+    def rewrite(stmts):
+        nonlocal count
+        for k_, s_ in enumerate(stmts):
+            for fld in ('body', 'orelse', 'finalbody'):
+                sub = getattr(s_, fld, None)
+                if isinstance(sub, list) and sub and isinstance(sub[0], ast.stmt):
+                    rewrite(sub)
+            if not (isinstance(s_, ast.For) and not s_.orelse and isinstance(s_.target, ast.Name) and isinstance(s_.iter, ast.Call) and
+                    isinstance(s_.iter.func, ast.Name) and s_.iter.func.id == 'range' and len(s_.iter.args) == 1 and not s_.iter.keywords and s_.body):
+                continue
+            S = len_of(s_.iter.args[0])
+            k = s_.target.id
+            b0 = s_.body[0]
+            if S is None or not (isinstance(b0, ast.Assign) and len(b0.targets) == 1 and isinstance(b0.targets[0], ast.Name) and
+                                 isinstance(b0.value, ast.Subscript) and isinstance(b0.value.value, ast.Name) and b0.value.value.id == S and
+                                 isinstance(b0.value.slice, ast.Name) and b0.value.slice.id == k):
+                continue
+            x = b0.targets[0].id
+            body = s_.body[1:]
+            allin = [y for n_ in body for y in ast.walk(n_)]
+            if any(isinstance(y, ast.Name) and y.id == k for y in allin):
+                continue
+            if any(isinstance(y, ast.Name) and y.id in (S, x) and isinstance(y.ctx, (ast.Store, ast.Del)) for y in allin):
+                continue
+            if any(isinstance(y, ast.Name) and y.id == k and isinstance(y.ctx, ast.Load) for t_ in stmts[k_ + 1:] for y in ast.walk(t_)):
+                continue
+            new = ast.For(target=ast.Name(id=x, ctx=ast.Store()), iter=ast.Name(id=S, ctx=ast.Load()), body=body or [ast.Pass()], orelse=[], type_comment=None)
+            stmts[k_] = ast.copy_location(new, s_)
+            ast.fix_missing_locations(stmts[k_])
+            count += 1
+    rewrite(fnode.body)
+    return count
+
+
 def normalise_module(tree):
     n = 0
     for node in ast.walk(tree):
@@ -399,6 +474,9 @@ def normalise_module(tree):
     for node in ast.walk(tree):
         if isinstance(node, (ast.FunctionDef, ast.AsyncFunctionDef)):
             n += flat_index_to_nested(node)
+    for node in ast.walk(tree):
+        if isinstance(node, (ast.FunctionDef, ast.AsyncFunctionDef)):
+            n += index_fetch_to_element_loop(node)
     for node in ast.walk(tree):
         if isinstance(node, (ast.FunctionDef, ast.AsyncFunctionDef)):
             n += inline_test_locals(node)
